@@ -16,6 +16,32 @@ var collations = []string{"BINARY", "NOCASE", "RTRIM", "nocase", "rtrim", "binar
 
 // Ident renders a name in a drawn quoting style (style 0 = bare when possible).
 func Ident(s *sim.Src, name string, fancy int) string {
+	return identStyled(s, name, fancy)
+}
+
+// IdentRef renders a REFERENCE to an existing name (in a constraint or index):
+// SQLite matches names case-insensitively, so the reference may be spelled in
+// another letter case than the definition.
+func IdentRef(s *sim.Src, name string, fancy int) string {
+	ascii := true
+	for i := 0; i < len(name); i++ {
+		if name[i] >= 0x80 {
+			ascii = false
+		}
+	}
+	// (ASCII names only: SQLite folds A-Z only, sqlittle folds with Unicode rules, so
+	// "ÜNÏ" names the column ünï for sqlittle but not for SQLite - observed, see DESIGN 14.4)
+	if ascii && fancy > 0 && s.Chance(1, 6, "refcase") {
+		if s.Chance(1, 2, "refupper") {
+			name = strings.ToUpper(name)
+		} else {
+			name = strings.ToLower(name)
+		}
+	}
+	return identStyled(s, name, fancy)
+}
+
+func identStyled(s *sim.Src, name string, fancy int) string {
 	bare := isBare(name)
 	style := 0
 	if fancy > 0 && s.Chance(fancy, 10, "qstyle?") {
@@ -229,7 +255,7 @@ func CreateTable(s *sim.Src, name string, fancy int, wantWithoutRowid bool, othe
 				}
 			}
 			seen[k] = true
-			p := Ident(s, cols[k].name, fancy)
+			p := IdentRef(s, cols[k].name, fancy)
 			if s.Chance(1, 4, "iccoll") {
 				p += " COLLATE " + collations[s.Draw(len(collations), "coll")]
 			}
@@ -247,7 +273,7 @@ func CreateTable(s *sim.Src, name string, fancy int, wantWithoutRowid bool, othe
 	if pkPlan == 2 {
 		if s.Chance(1, 3, "tpk1") {
 			// single column table-level PK (may alias the rowid)
-			p := Ident(s, cols[pkCol].name, fancy)
+			p := IdentRef(s, cols[pkCol].name, fancy)
 			if s.Chance(1, 3, "tpkdesc") {
 				p += " DESC"
 			}
@@ -338,7 +364,7 @@ func CreateIndex(s *sim.Src, name, table string, cols []string, fancy int, allow
 			spec.Exprs[fmt.Sprint(len(parts))] = e
 			p = e
 		} else {
-			p = Ident(s, cols[k], fancy)
+			p = IdentRef(s, cols[k], fancy)
 		}
 		if s.Chance(1, 3, "ixcoll") {
 			p += " COLLATE " + collations[s.Draw(len(collations), "coll")]
